@@ -44,7 +44,8 @@ func SingleInitializer(p StandardCodeFormat, a Argument) (Instructions, Register
 	argumentStart := uint32(1<<32 - ZZ - ZI)
 	// argumentEnd := argumentStart + uint32(len(a))
 	argumentEnd := argumentStart + uint32(len(a))
-	argumentPadding := argumentEnd + P(len(a))
+	// the argument zone spans P(|a|) octets from its START (GP A.7), not from the end of the data
+	argumentPadding := argumentStart + P(len(a))
 
 	mem := Memory{
 		Pages:       make(map[uint32]*Page),
